@@ -7,7 +7,7 @@ import ast
 import z3
 from pyvc.runner import unit, run_function
 from pyvc.values import *
-from pyvc.engine import State, LoopSpec
+from pyvc.engine import State, LoopSpec, _b_type
 from .common import *
 
 TY = "renderable/_types.py"
@@ -405,6 +405,11 @@ def ops_unit(fname):
                 eng.methods["new:RenderArgs"] = new_ra
                 or_node = inline(ctx.fn(TY, "ArgsNamespace.__or__"), eng)
                 eng.methods[("nscls", "__or__")] = lambda e, s, recv, a, k: e.call(or_node, tuple(a), k, s)
+                # the sibling operations, should one of these call another: their real bodies (each is also a unit of its own)
+                for sib in ("__pos__", "to_render_args"):
+                    if sib != fname:
+                        sib_node = inline(ctx.fn(TY, f"ArgsNamespace.{sib}"), eng)
+                        eng.methods[("ArgsNamespace", sib)] = lambda e, s, recv, a, k, sib_node=sib_node: e.call(sib_node, (recv,) + tuple(a), k, s)
                 eng.genv["type"] = Fn(lambda e, s, a, k: [((self_cls if a[0] is self_ else other_cls if a[0] is other else ClassV("int")), s)])
                 st.env.update(self=self_, other=other, render_cls=None)
                 outs = run_function(eng, ctx.fn(TY, f"ArgsNamespace.{fname}"), st)
@@ -466,6 +471,12 @@ def u_update(ctx):
                 eng.methods[("RenderArgs", "__getitem__")] = lambda e, s, recv, a, k: [(ns_self, s)]
                 upd_calls = []
                 eng.methods[("ArgsNamespace", "update")] = lambda e, s, recv, a, k: (upd_calls.append((recv, dict(k))), [(updated_ns, s)])[1]
+                # namespace -> set conversions, should update() go through them: their real bodies (units of their own above)
+                ns_cls = st.new("nscls", {"_RENDER_CLS": any_cls})
+                eng.genv["type"] = Fn(lambda e, s, a, k, ns_cls=ns_cls: [(ns_cls, s)] if isinstance(a[0], Ref) and a[0].cls == "ArgsNamespace" else _b_type(e, s, a, k))
+                for sib in ("__pos__", "to_render_args"):
+                    sib_node = inline(ctx.fn(TY, f"ArgsNamespace.{sib}"), eng)
+                    eng.methods[("ArgsNamespace", sib)] = lambda e, s, recv, a, k, sib_node=sib_node: e.call(sib_node, (recv,) + tuple(a), k, s)
                 eng.methods["new:RenderArgs"] = lambda e, s, c, a, k: [_mk(e, s, a)]
                 # RenderArgs.__contains__ (its own contract: "this very value is what the set holds for that class"): may be true or
                 # false for any namespace given - whatever it says, update() hands ALL the namespaces on, in the order given
